@@ -101,6 +101,39 @@ def one(chk, P, name):
                 okf = okf and (v in ('exp_sat',) or v.startswith('base_p_'))
         chk.check(okf and bool(sources), 'C09-R2', GH, name, f'{T} increment = occupation(host mass, {T} params) * ic_{S} * {Hn["weight"]}[i]', '; '.join(detail),
                   f'{T} increment factors {detail}: the slice width must be the occupation at the host mass times incompleteness times multiplicity/weight', node=sources[0] if sources else info['block'])
+        # the secondary-rank decoration must survive to the increment on every path (ranks enabled): a later re-definition of the
+        # probability from scratch (e.g. a conformity branch placed after it) silently drops the rank term
+        decos = [n for n in walk_no_nested(info['block']) if isinstance(n, ast.Assign) and isinstance(n.targets[0], ast.Name)
+                 and n.targets[0].id.startswith('base_p_') and _only_decorated(n)]
+        if decos:
+            pname = decos[0].targets[0].id
+            lost = []
+
+            def flow(stmts, dec):
+                for st_ in stmts:
+                    if isinstance(st_, ast.If):
+                        if unparse(st_.test) == 'enable_ranks':
+                            dec = flow(st_.body, dec)
+                        else:
+                            a_, b_ = flow(st_.body, dec), flow(st_.orelse, dec)
+                            dec = a_ and b_
+                    elif isinstance(st_, (ast.For, ast.While, ast.With)):
+                        dec = flow(st_.body, dec)
+                    elif isinstance(st_, ast.Assign) and any(isinstance(t_, ast.Name) and t_.id == pname for t_ in st_.targets):
+                        if not _only_decorated(st_):
+                            dec = False          # defined from scratch
+                        elif 'decorator' in unparse(st_.value):
+                            dec = True           # p = p * decorator
+                        # p = p * <other factor>: keeps what it had
+                    elif any(st_ is i_ for i_ in info['incs']) or (isinstance(st_, ast.AugAssign) and unparse(st_.target) == m):
+                        if not dec and pname in unparse(st_.value):
+                            lost.append(st_)
+                return dec
+            blk = info['block']
+            flow(blk.body if hasattr(blk, 'body') else [blk], False)
+            chk.check(not lost, 'C09-R2', GH, name, f'{T}: the rank decoration reaches the marker increment on every path', f'{len(decos)} decoration(s) of {pname}',
+                      f'{pname} is re-defined after its rank decoration on some path to "{unparse(lost[0])[:40] if lost else ""}": for those hosts the slice width '
+                      'lacks the secondary-rank factor (1 + s*rank + ...)', node=lost[0] if lost else blk, nontrivial=False)
     # comparison chain
     okc = [b['marker'] for b in P.branches] == order and all(b['op'] == 'LtE' and b['lhs'] == f'{Hn["rnd"]}[{P.i_c}]' for b in P.branches)
     chk.check(okc, 'C09-R2', GH, name, 'if/elif chain randoms[i] <= LRG, ELG, QSO marker', '',
